@@ -156,6 +156,64 @@ theorem held_is_last_deliver {h : List Ev} {id k : Nat} (hs : status h id = .hel
          · first | (cases hs; done) | (split at hs <;> cases hs)
          · exact ih hs)
 
+/-! history-level forms of the C02 theorems: they use nothing but `okHist`, so they apply to the
+atomic model and to the micro-step model of the map / heap windows alike -/
+
+theorem hist_redelivery_justified {hist : List Ev} (hok : okHist hist = true)
+    {h3 h2 h1 : List Ev} {k1 k2 id a1 a2 : Nat}
+    (hs : hist = h3 ++ Ev.deliver k2 id a2 :: (h2 ++ Ev.deliver k1 id a1 :: h1)) :
+    ∃ ev ∈ h2, releases ev id = true := by
+  rw [hs] at hok
+  have hok2 := okHist_append hok
+  have hev : okEv (h2 ++ Ev.deliver k1 id a1 :: h1) (Ev.deliver k2 id a2) = true := by
+    simp only [okHist, Bool.and_eq_true] at hok2; exact hok2.1
+  have hok3 : okHist (h2 ++ Ev.deliver k1 id a1 :: h1) = true := by
+    simp only [okHist, Bool.and_eq_true] at hok2; exact hok2.2
+  simp only [okEv, beq_iff_eq, Bool.and_eq_true] at hev
+  apply Classical.byContradiction
+  intro hno
+  have hnr : ∀ ev ∈ h2, releases ev id = false := by
+    intro ev hev'
+    cases hr : releases ev id
+    · rfl
+    · exact absurd ⟨ev, hev', hr⟩ hno
+  have hbase : status (Ev.deliver k1 id a1 :: h1) id = .held k1 := by simp [status, evSt]
+  rcases held_until_released hok3 hbase hnr with h' | h' <;> rw [h'] at hev <;> cases hev.1
+
+theorem hist_answer_by_holder {hist : List Ev} (hok : okHist hist = true) {h2 h1 : List Ev} {ev : Ev} {k id : Nat}
+    (hs : hist = h2 ++ ev :: h1)
+    (hev : ev = .finOk k id ∨ (∃ d, ev = .reqOk k id d) ∨ ev = .touchOk k id ∨ ev = .timeout id k) :
+    lastDeliver h1 id = some k := by
+  rw [hs] at hok
+  have hok2 := okHist_append hok
+  simp only [okHist, Bool.and_eq_true] at hok2
+  apply held_is_last_deliver
+  rcases hev with rfl | ⟨d, rfl⟩ | rfl | rfl <;> simpa [okEv] using hok2.1
+
+theorem hist_attempts_consecutive {hist : List Ev} (hok : okHist hist = true) {h2 h1 : List Ev} {k id a : Nat}
+    (hs : hist = h2 ++ Ev.deliver k id a :: h1) :
+    a = nDeliver h1 id + 1 ∧ (a < 65536 → wireAttempts a = nDeliver h1 id + 1) := by
+  rw [hs] at hok
+  have hok2 := okHist_append hok
+  simp only [okHist, okEv, beq_iff_eq, Bool.and_eq_true] at hok2
+  refine ⟨hok2.1.2, fun hlt => ?_⟩
+  unfold wireAttempts
+  rw [Nat.mod_eq_of_lt hlt]
+  exact hok2.1.2
+
+theorem hist_fin_final {hist : List Ev} (hok : okHist hist = true) {h2 h1 : List Ev} {k id : Nat}
+    (hs : hist = h2 ++ Ev.finOk k id :: h1) :
+    ∀ ev ∈ h2, concerns ev id = false ∧ ∀ k' a, ev ≠ .deliver k' id a := by
+  rw [hs] at hok
+  have hg : status (Ev.finOk k id :: h1) id = .gone := by simp [status, evSt]
+  intro ev hev
+  have hnc := (gone_forever hok hg).2 ev hev
+  refine ⟨hnc, ?_⟩
+  intro k' a heq
+  subst heq
+  simp [concerns, evIds] at hnc
+
+
 /-- ids of the fan-out events, newest first -/
 def fannedIds : List Ev → List Nat
   | [] => []
